@@ -246,6 +246,7 @@ def cmd_check(a):
             "reach_probes_at_zero": zero,
             "oracle_comparisons": st.get("oracle", 0),
             "unexpected_exceptions": group("unexpected:"),
+            "other_counters": {k: v for k, v in sorted(st.items()) if ":" in k and k.split(":")[0] not in ("op", "fault", "probe", "unexpected")},
             "sweeps": sweep_info,
             "determinism_selfcheck_runs": det_checked,
             "corpus_replays": len(corpus),
